@@ -297,7 +297,27 @@ impl Property for ProgProp {
                                         None => Ok(()),
                                     }) {
                                         Err(e) => Err(Failure::new(format!("the generated source cannot compile: {}", e)).with_signature("compile_error").with_detail(json!({"case": describe_case(&p), "generated_source": pc.source}))),
-                                        Ok(()) => Ok(()),
+                                        Ok(()) => {
+                                            // a second necessary condition (quick-xml preset, where `@` separates attributes from children):
+                                            // a struct set that does not admit a source document cannot deserialize it
+                                            if self.deser == Deser::QuickXml {
+                                                match crate::rendered::build_tree(&defs, "@", "$text") {
+                                                    Err(e) => Err(Failure::new(format!("the generated structs do not form a tree: {}", e)).with_signature("compile_error").with_detail(json!({"case": describe_case(&p), "generated_source": pc.source}))),
+                                                    Ok(tree) => {
+                                                        let mut r = Ok(());
+                                                        for (di, d) in p.case.docs.iter().enumerate() {
+                                                            if let Err(e) = super::c01::admits(d, &tree, "") {
+                                                                r = Err(Failure::new(format!("from_str cannot succeed for source document #{}: {}", di + 1, e)).with_signature("deserialize_error").with_detail(json!({"case": describe_case(&p), "generated_source": pc.source})));
+                                                                break;
+                                                            }
+                                                        }
+                                                        r
+                                                    }
+                                                }
+                                            } else {
+                                                Ok(())
+                                            }
+                                        }
                                     },
                                 }}
                             };
@@ -417,7 +437,7 @@ impl Property for ProgProp {
     }
     fn rule(&self) -> String {
         match self.deser {
-            Deser::QuickXml => "tape-decoded data-oriented document sequences (1..4 documents; every occurrence text-bearing xor child-bearing, blanks may sit between children; no two names of a case equal after prefix removal; all name classes incl. keywords, prefixes, xmlns/xml:lang attributes, case variants, String/Option/Vec/Self/Serialize names; CDATA, comments, PIs, DOCTYPE, predefined entities and character references). Each generated program = CLI header + rendering, unchanged, plus a copy with #[serde(deny_unknown_fields)] on every struct; 50-100 programs are compiled by one direct rustc call (edition 2021) against prebuilt serde/quick-xml rlibs (features serialize + overlapped-lists) and run: quick_xml::de::from_str::<first struct> on every source document; the value is printed through an own serde::Serializer and compared with the document (every attribute value, every text content trimmed, children incl. Vec lengths and order, nothing unaccounted). A first stage checks 40 000 (quick) / 1.5 M (thorough) further generated cases without rustc for the necessary conditions of compilation (syn parse, the C04 oracle, no struct named like the serde import). Non-trivial = program has two or more structs or an Option/Vec field (and, in the compile stage, a value was compared); distinct by hash of documents and surface tape; distinct_nontrivial counts both stages, `programs` only the compiled ones.".into(),
+            Deser::QuickXml => "tape-decoded data-oriented document sequences (1..4 documents; every occurrence text-bearing xor child-bearing, blanks may sit between children; no two names of a case equal after prefix removal; all name classes incl. keywords, prefixes, xmlns/xml:lang attributes, case variants, String/Option/Vec/Self/Serialize names; CDATA, comments, PIs, DOCTYPE, predefined entities and character references). Each generated program = CLI header + rendering, unchanged, plus a copy with #[serde(deny_unknown_fields)] on every struct; 50-100 programs are compiled by one direct rustc call (edition 2021) against prebuilt serde/quick-xml rlibs (features serialize + overlapped-lists) and run: quick_xml::de::from_str::<first struct> on every source document; the value is printed through an own serde::Serializer and compared with the document (every attribute value, every text content trimmed, children incl. Vec lengths and order, nothing unaccounted). A first stage checks 40 000 (quick) / 1.5 M (thorough) further generated cases without rustc for the necessary conditions of compilation (syn parse, the C04 oracle, no struct named like the serde import) and of deserialization (every source document is admitted by the struct tree, as in C01). Non-trivial = program has two or more structs or an Option/Vec field (and, in the compile stage, a value was compared); distinct by hash of documents and surface tape; distinct_nontrivial counts both stages, `programs` only the compiled ones.".into(),
             Deser::SerdeXmlRs => "as C02 but namespace-free (no ':' in names, no xmlns attributes), attribute names disjoint from element names, repeated children adjacent, child-bearing occurrences without any character data; serde-xml-rs preset, serde_xml_rs::from_str (0.6.0), no deny_unknown_fields variant. The main search excludes by construction the region of the open finding (a name is either a text leaf or structural); one case in twenty generates that region and must show exactly the known signature or nothing. The static first stage and the counting are as in C02.".into(),
         }
     }
